@@ -422,6 +422,54 @@ func judge(data []byte, hs []common.Uint168, ps []*pg.Program, where string, inp
 	}
 }
 
+// crossProduct: every shape of *valid* program (standard, 2-of-3 multisig,
+// single-key Schnorr, aggregated Schnorr) of an attacker, presented for every
+// kind of address it does not own: the address of another key's standard /
+// multisig / Schnorr script and of the attacker's own key under another
+// shape, under every prefix.  All must be rejected; fixed cases, every run.
+func crossProduct(data []byte) {
+	att, vic, third := keys[3], keys[4], keys[5]
+	type prog struct {
+		name string
+		p    *pg.Program
+	}
+	mcode := sigkit.RawMulti(2, encs([]*sigkit.Key{att, keys[6], keys[7]}), 3, 0xae)
+	agg := aggKey([]*sigkit.Key{att, keys[6]})
+	attackers := []prog{
+		{"std", &pg.Program{Code: sigkit.StdCode(att), Parameter: sigkit.SigScript(att, data)}},
+		{"multi2of3", &pg.Program{Code: mcode, Parameter: append(sigkit.SigScript(att, data), sigkit.SigScript(keys[6], data)...)}},
+		{"schnorr", &pg.Program{Code: sigkit.SchnorrCode(att), Parameter: sigkit.SchnorrSig([]*sigkit.Key{att}, data)}},
+		{"schnorr-agg", &pg.Program{Code: sigkit.SchnorrCode(agg), Parameter: sigkit.SchnorrSig([]*sigkit.Key{att, keys[6]}, data)}},
+	}
+	victims := []struct {
+		name string
+		code []byte
+	}{
+		{"otherstd", sigkit.StdCode(vic)},
+		{"othermulti", sigkit.RawMulti(1, encs([]*sigkit.Key{vic, third}), 2, 0xae)},
+		{"otherschnorr", sigkit.SchnorrCode(vic)},
+		{"ownkey-std", sigkit.StdCode(att)},
+		{"ownkey-schnorr", sigkit.SchnorrCode(att)},
+	}
+	for _, a := range attackers {
+		for _, v := range victims {
+			if bytes.Equal(a.p.Code, v.code) {
+				continue
+			}
+			for _, pre := range []byte{pStd, pDep, pMulti} {
+				runCase(data, []pair{{sigkit.Hash(pre, v.code), a.p, "corpus"}}, fmt.Sprintf("corpus:cross:%s-for-%s@%02x", a.name, v.name, pre))
+			}
+		}
+		// ... and for its own code under prefixes that must not accept this shape
+		for _, pre := range []byte{pMulti, pDID, 0x3f, 0x00} {
+			if a.name == "multi2of3" && pre == pMulti {
+				continue
+			}
+			runCase(data, []pair{{sigkit.Hash(pre, a.p.Code), a.p, "corpus"}}, fmt.Sprintf("corpus:cross:%s-own@%02x", a.name, pre))
+		}
+	}
+}
+
 func runCase(data []byte, pairs []pair, kind string) {
 	var hs []common.Uint168
 	var ps []*pg.Program
@@ -597,6 +645,17 @@ func txCase() {
 			k := keys[rng.Intn(len(keys))]
 			ps[0] = &pg.Program{Code: ps[0].Code, Parameter: sigkit.SigScript(k, data)}
 			kind += "+wrongsigner"
+		}
+	case 5, 6: // a perfectly valid program of somebody else (any shape) stands in for one owner's program
+		if len(ps) > 0 {
+			for tries := 0; tries < 8; tries++ {
+				o := genOwner()
+				if !seen[o.h] {
+					ps[rng.Intn(len(ps))] = o.sign(data)
+					kind += "+foreignprogram:" + o.kind
+					break
+				}
+			}
 		}
 	}
 	tx.SetPrograms(ps)
@@ -881,6 +940,7 @@ func main() {
 			mine := sigkit.RawMulti(1, encs([]*sigkit.Key{k0, k1}), 2, 0xae)
 			runCase(data0, []pair{{sigkit.Hash(pre, mc), &pg.Program{Code: mine, Parameter: sigkit.SigScript(k0, data0)}, "corpus"}}, fmt.Sprintf("corpus:multi-hashmismatch@%02x", pre))
 		}
+		crossProduct(data0)
 		runCase(data0, nil, "corpus:empty")
 		runCase(data0, []pair{{sigkit.Hash(pStd, c), &pg.Program{Code: c, Parameter: sigkit.SigScript(k0, data0)}, "corpus"}, {sigkit.Hash(pStd, c), &pg.Program{Code: c, Parameter: sigkit.SigScript(k0, data0)}, "corpus"}}[:1], "corpus:one")
 	}
